@@ -298,7 +298,18 @@ pub(crate) fn run_scheduling_solver(
                             &w.resources,
                             sn_assignment.assigned_tasks.iter().map(|task_id| {
                                 let t = task_map.get_task(*task_id);
-                                (t.resource_rq_id, t.rv_id().unwrap())
+                                // A task that is being redirected to this worker already holds
+                                // its reservation here; its variant is stored in the redirect
+                                let rv_id = t
+                                    .rv_id()
+                                    .or_else(|| {
+                                        scheduler_cache
+                                            .redirects
+                                            .get(task_id)
+                                            .map(|(_, rv_id)| *rv_id)
+                                    })
+                                    .unwrap();
+                                (t.resource_rq_id, rv_id)
                             }),
                             request_map,
                         );
